@@ -4,11 +4,14 @@
    orders: what the decoder's field parsers (parseFitField, parseFitFieldArray, parseTimeStamp,
    NewLatitude/NewLongitude on the 4 extended bytes) return on the bytes the encoder's field writers
    (encodeValue, writeField) produced is the value put in, up to norm_field (trailing invalid padding of
-   arrays, wall-clock reading of local times).  The stream level (Decode (Encode f) = norm f) is decided
-   per generated File by the harness. *)
+   arrays, wall-clock reading of local times); and STREAM level (C06_roundtrip below): Decode of the bytes Encode wrote
+   returns a File with content_eq6, for every well-formed in-domain File off the decoder's two recorded time-rule
+   defects. *)
 From Coq Require Import NArith ZArith List Bool String.
 From FitV Require Import Model.Values Model.Bytes Model.Base Model.Profile Model.Encode Model.Decode Spec.RoundTrip
-  Proofs.C06Codec Proofs.EncExamples.
+  Model.Header Model.Route Spec.FitSyntax Spec.Grammar Proofs.EncodeProofs Proofs.C06Codec Proofs.C06Defs Proofs.C06Lay
+  Model.IO Model.Components Proofs.C06Recs Proofs.C06Denote Proofs.C06Route Proofs.C06RoundTrip
+  Proofs.StreamDenoteDefs Proofs.StreamDenoteMain Proofs.StreamDenoteFrame Proofs.StreamDenoteDecode Proofs.EncExamples.
 Import ListNotations.
 Local Open Scope N_scope.
 
@@ -88,6 +91,72 @@ Proof. exact rt_array_norm. Qed.
 Theorem C06_codec_is_inv : forall bt ty iv, codec_ty bt = Some ty -> b_invalid bt = Some iv -> is_inv bt iv = true.
 Proof. exact codec_is_inv. Qed.
 Print Assumptions C06_rt_array_norm.
+
+(* ---- stream level, first piece: encode_is_serialize.  For every well-formed File, both byte orders, both header
+   sizes: the bytes Encode writes are the framed serialisation (fit_file: header, records, CRC -- the input format
+   of the stream theorem C02_decode_denote) of an explicit record list rs laid out as [lay] describes: a definition
+   and a data record per message of a pointer slot, one definition (covering every set field of every element, field
+   numbers distinct) and one data record per element for a slice slot, local type 0 throughout, each field's bytes
+   being what writeField wrote for the struct field; rs is serialisable (stream_wf) and starts with the file_id
+   definition and message.  Side conditions on the header: as NewHeader makes it, a protocol version Decode accepts,
+   16-bit profile version. *)
+Theorem C06_encode_is_serialize : forall f be bs f',
+  wf_file f = true -> wf_header (f_header f) = true ->
+  proto_ok (h_proto (f_header f)) = true -> h_profile (f_header f) < 65536 ->
+  encode f be = EOk (bs, f') -> N.of_nat (List.length bs) < 4294967296 ->
+  exists rs, let h := wire_header (f_header f) (N.of_nat (List.length (ser_records rs))) in
+    bs = fit_file h rs /\ header_wf h /\ h_dsize h = N.of_nat (List.length (ser_records rs)) /\
+    lay be (file_msgs f) rs /\ stream_wf rs = true /\ starts_with_file_id rs = true.
+Proof. exact encode_is_serialize. Qed.
+Print Assumptions C06_encode_is_serialize.
+
+(* ---- stream level, second piece: the laid-out record list is in the domain of the reference semantics and
+   denotes the File's messages up to norm_msg (lay_denote); third piece: routing the denoted messages back gives
+   content_eq6 (route_roundtrip_g: slot by slot, expansion of components on accumulators with mask 0) *)
+Theorem C06_lay_denote : forall be msgs rs, lay be msgs rs -> Forall msg_dom msgs ->
+  forall ss0, exists ss1 msgs',
+    denote_from ss0 rs = Some ss1 /\ ss_msgs ss1 = ss_msgs ss0 ++ msgs' /\ Forall2 msg_norm_eq msgs msgs' /\
+    ss_unkm ss1 = ss_unkm ss0 /\ ss_unkf ss1 = ss_unkf ss0.
+Proof. exact lay_denote. Qed.
+
+(* ---- roundtrip.  For every File f with
+     wf_file f            a Go state reachable through the public API,
+     in_domain f          the representable domain of the property (valid UTF-8 strings that fit, arrays no longer than
+                          the profile length, whole-second timestamps in range, valid coordinates, no valid
+                          compressed_speed_distance: known finding csd_accumulator),
+     a header as NewHeader makes it with a protocol version Decode accepts,
+     no_time_quirk (file_recs f be)   the record list Encode lays out (a function of f) stays off the decoder's two
+                          recorded time-rule defects (C12: an explicit timestamp 0 on the wire -- e.g. an unset
+                          Timestamp written because another element of the slice has one --, a local timestamp
+                          without a reference >= 0x10000000 before it),
+   both byte orders, both header sizes, every decode option set, every reader (chunk schedule, trailing bytes) and
+   every accumulator state g with ginv g (total_cycles / accumulated_power accumulators absent or mask 0, value 0:
+   the initial state and every state reachable from it): Decode of the bytes Encode wrote succeeds, reports the
+   header written, consumes exactly those bytes, and returns a File file' with content_eq6 f file' (same file type,
+   per slot the same number of messages in the same order, field-for-field equal after norm: arrays up to
+   trailing invalid padding, local timestamps by wall clock, derived fields as the component rule prescribes,
+   unset fields invalid). *)
+Theorem C06_roundtrip : forall f be bs f' o g rd fuel extra,
+  wf_file f = true -> wf_header (f_header f) = true ->
+  proto_ok (h_proto (f_header f)) = true -> h_profile (f_header f) < 65536 ->
+  in_domain f = true -> ginv g ->
+  encode f be = EOk (bs, f') -> N.of_nat (List.length bs) < 4294967296 ->
+  no_time_quirk (file_recs f be) = true ->
+  rd_data rd = bs ++ extra -> (List.length (rd_data rd) + List.length (rd_sched rd) < fuel)%nat ->
+  exists rd' file' g' q,
+    entry_Decode o g rd fuel =
+      TDone (mk_dres None (wire_header (f_header f) (N.of_nat (List.length (ser_records (file_recs f be))))) (Some file') rd' g' q) /\
+    content_eq6 f file' = true /\ ginv g' /\ rd_data rd' = extra /\ rd_pos rd' = (rd_pos rd + List.length bs)%nat.
+Proof. exact roundtrip. Qed.
+Print Assumptions C06_roundtrip.
+
+(* the hypotheses are satisfiable *)
+Example C06_roundtrip_example :
+  wf_file ex_file = true /\ wf_header (f_header ex_file) = true /\ proto_ok (h_proto (f_header ex_file)) = true /\
+  h_profile (f_header ex_file) < 65536 /\ in_domain ex_file = true /\
+  (exists bs f', encode ex_file true = EOk (bs, f') /\ N.of_nat (List.length bs) < 4294967296) /\
+  no_time_quirk (file_recs ex_file true) = true.
+Proof. exact roundtrip_example. Qed.
 
 Example C06_example : wf_file ex_file = true /\ in_domain ex_file = true.
 Proof. split; vm_compute; reflexivity. Qed.
